@@ -783,6 +783,12 @@ get_valid_child_classes(std::map<std::string, CastDetails> &answer, CPPStructTyp
     return;
   }
 
+  // See DoesInheritFromIsClass().
+  static std::set<CPPStructType *> visiting;
+  if (!visiting.insert(inclass).second) {
+    return;
+  }
+
   for (const CPPStructType::Base &base : inclass->_derivation) {
 // if (base._vis <= V_public) can_downcast = false;
     CPPStructType *base_type = TypeManager::resolve_type(base._base)->as_struct_type();
@@ -809,6 +815,8 @@ get_valid_child_classes(std::map<std::string, CastDetails> &answer, CPPStructTyp
       get_valid_child_classes(answer, base_type, answer[scoped_name]._up_cast_string, answer[scoped_name]._can_downcast);
     }
   }
+
+  visiting.erase(inclass);
 }
 
 /**
@@ -8790,15 +8798,25 @@ DoesInheritFromIsClass(const CPPStructType *inclass, const std::string &name) {
     return true;
   }
 
+  // A base class given in terms of template parameters may resolve, by name,
+  // to the class we came from (as in Tup<H, Ts...> : Tup<Ts...>).
+  static std::set<const CPPStructType *> visiting;
+  if (!visiting.insert(inclass).second) {
+    return false;
+  }
+
+  bool result = false;
   for (const CPPStructType::Base &base : inclass->_derivation) {
     CPPStructType *base_type = TypeManager::resolve_type(base._base)->as_struct_type();
     if (base_type != nullptr) {
       if (DoesInheritFromIsClass(base_type, name)) {
-        return true;
+        result = true;
+        break;
       }
     }
   }
-  return false;
+  visiting.erase(inclass);
+  return result;
 }
 
 /**
